@@ -76,7 +76,10 @@ type Sched struct {
 	prefix  []int
 	Tick    time.Duration // >0: "advance the fake clock by Tick" is an alternative when a thread is blocked off-point
 	MaxStep int
-	exec    Exec
+	// UnlockPoints makes the return of every Unlock a scheduling point too (a preemption
+	// between a critical section and the unlocked code after it)
+	UnlockPoints bool
+	exec         Exec
 }
 
 func New(prefix []int) *Sched {
@@ -156,6 +159,9 @@ func (s *Sched) hooks() *syncshim.Hooks {
 			}
 		},
 		AfterUnlock: func(m *syncshim.Mutex) {
+			if !s.UnlockPoints {
+				return
+			}
 			if t := s.current(); t != nil {
 				s.park(t, "unlock", nil, false)
 			}
@@ -188,18 +194,27 @@ func (s *Sched) Run() *Exec {
 			}
 			enabled = append(enabled, t.id)
 		}
-		// canonical order: the thread that ran last first (if still enabled and not yielded),
-		// then the others ascending, yielded threads last
+		// canonical order = default schedule first: the thread that ran last if it can continue
+		// and did not yield; otherwise round-robin from the thread after it, threads that
+		// yielded (they wait for somebody else) after those that did not
 		runningOn := false
 		var first, rest, last []int
-		for _, id := range enabled {
+		n := len(s.threads)
+		for k := 0; k < n; k++ {
+			id := (running + 1 + k + n) % n
+			if running < 0 {
+				id = k
+			}
 			t := s.threads[id]
+			if t.done || !t.parked || (t.lockOn != nil && t.lockOn.Held()) {
+				continue
+			}
 			switch {
-			case t.yielded:
-				last = append(last, id)
-			case id == running:
+			case id == running && !t.yielded:
 				first = append(first, id)
 				runningOn = true
+			case t.yielded:
+				last = append(last, id)
 			default:
 				rest = append(rest, id)
 			}
@@ -298,16 +313,10 @@ func stepCost(s Step, choice int) int {
 	if choice == 0 {
 		return 0
 	}
-	if choice == len(s.Enabled) && len(s.Enabled) > 0 {
-		return 1 // the timer fires although a thread could run
-	}
-	if s.RunningOn {
-		return 1
-	}
-	return 0 // the previous thread blocked, finished or yielded: any order is free
+	return 1 // any departure from the default schedule (a preemption, another order after a block or a yield, a timer firing first)
 }
 
-// Explore enumerates every schedule with at most bound preemptions. run executes one
+// Explore enumerates every schedule with at most bound deviations from the default schedule. run executes one
 // schedule (prefix, then default choices) and returns its record; visit is called once per
 // execution; it returns false to stop. own(i) selects the root alternatives this process
 // explores (sharding): root alternative number i (in enumeration order) and everything
